@@ -59,7 +59,8 @@ Unspec(q, c) ==
 E(op, args) == [op |-> op, args |-> args]
 Alphabet ==
   CASE Cfg = "strings" ->
-         {E("Set", [field |-> "author", value |-> StrV(s)]) : s \in {e1, e2, e3, <<97>>, <<97, 98, 99, 100>>, ja, zh}}
+         {E("Set", [field |-> "author", value |-> StrV(s)]) : s \in {e1, e2, e3, <<97>>, <<97, 98, 99, 100>>, ja, zh,
+                                                                      <<97, 0, 98>>}}       \* a NUL inside: the property is counted, not only terminated
          \cup {E("Set", [field |-> "author", value |-> Absent])}
          \cup {E("Set", [field |-> "comments", value |-> v]) : v \in {StrV(<<120>>), Absent}}
          \cup {E("Set", [field |-> "codepage", value |-> IntV(c)]) : c \in {65001, 1252, 932, 936, 949, 950, 951, 20127}}
